@@ -627,6 +627,21 @@ func probeFixed() bool {
 	return u != nil && u.SameSubnet
 }
 
+// probeBlockReflag reports whether a block route that appears after a contained local workload address
+// re-flags that address (aac8598).
+func probeBlockReflag() bool {
+	ops := []op{{kind: kWep, n: 0, cidrs: []pfx{mk(10, 1, 0, 3, 32)}}, {kind: kBlock, c: mk(10, 1, 0, 0, 26), block: &blockV{aff: 1}}}
+	rt := &recRT{cur: map[rtKey][]routetable.Target{}}
+	rec := &recorder{routes: map[string]*proto.RouteUpdate{}, mgrs: intdataplane.VerifC43NewManagers(rt, nodeName(0), "eth0")}
+	res := calc.NewL3RouteResolver(nodeName(0), rec, "CalicoIPAM")
+	res.OnAlive = func() {}
+	for _, o := range ops {
+		apply(res, o)
+	}
+	u := rec.routes["10.1.0.3/32"]
+	return u != nil && u.Borrowed
+}
+
 var treeFixed bool
 
 func runCase(r *rng, ops []op, nNodes int, tags []string) line {
@@ -785,6 +800,10 @@ func main() {
 	logrus.SetLevel(logrus.PanicLevel)
 	r := &rng{s: *seed}
 	treeFixed = probeFixed()
+	if probeBlockReflag() != treeFixed {
+		fmt.Fprintln(os.Stderr, "verif C43: tree has exactly one of the two resolver fixes (b294575 / aac8598); the model knows the pinned tree and the current tree")
+		os.Exit(3)
+	}
 	enc := json.NewEncoder(os.Stdout)
 	for i := 0; i < *n; i++ {
 		if i%5 == 0 {
